@@ -221,6 +221,13 @@ def check_raster(ctx, case, tmp):
 
     tree, pid = raster_tree(case)
     res_arg = case["res"] if not case.get("scalar_res") else case["res"][0]
+    form = case.get("res_form", "list")
+    if not case.get("scalar_res"):
+        res_arg = {"list": list, "tuple": tuple, "array": np.array,
+                   "array32": lambda v: np.array(v, dtype=np.float32)}[form](case["res"])
+    elif float(res_arg).is_integer() and form in ("tuple", "array"):
+        res_arg = int(res_arg) if form == "tuple" else np.float32(res_arg)
+    ctx.count("resolution_form_" + (form if not case.get("scalar_res") else "scalar"))
     tf = ToImageStack(res_arg)
     if _raster_pass(ctx, case, tmp, tree, pid, tf, res_arg, "") is not True:
         return
@@ -423,7 +430,8 @@ def run(ctx):
                     "rscale": float(rng.choice([0.4, 0.8, 1.5, 3.0])),
                     "step": float(rng.choice([1.5, 3.0, 6.0])), "origin": origin,
                     "ranges": str(rng.choice(["auto", "auto", "auto", "pad", "crop"])),
-                    "save": bool(rng.random() < 0.25), "edit": bool(rng.random() < 0.35)}
+                    "save": bool(rng.random() < 0.25), "edit": bool(rng.random() < 0.35),
+                    "res_form": str(rng.choice(["list", "tuple", "array", "array32"]))}
             ctx.case(case, klass="raster")
             execute(ctx, case)
     ctx.count("tap_get_samplers", tap.counts["get_samplers"])
